@@ -34,7 +34,7 @@ def guarded(f):
         return f()
     except AssertionError:
         return 'error:assert'
-    except (ValueError, TypeError, IndexError, KeyError) as e:
+    except Exception as e:      # any other exception becomes a value that is compared with the model: a disagreement with its input, never exit 2
         return 'error:' + type(e).__name__
 
 
